@@ -52,6 +52,8 @@ def generate(seed, tier):
             ops.append({'op': 'flag', 'cutoff': rng.choice([None, None, 0, 1, 2, T, T + 2]), 'suppress': rng.random() < 0.5})
         elif r < 0.22:
             ops.append({'op': 'csv', 'fmt': rng.choice(FMTS)})
+            if rng.random() < 0.3:
+                ops.append({'op': 'names_mutate', 'how': rng.choice(['sort', 'reverse', 'clear', 'append'])})
         elif r < 0.27 and 'fill' in ops[0]['op']:
             ops.append({'op': 'append', 'group': rng.choice(groups), 'series': rng.choice(names), 'value': round(rng.uniform(-9, 9), 2)})
         elif r < 0.33:
@@ -191,6 +193,17 @@ def execute(case):
                     pass
             if cutoff is None and not flags['suppress']:
                 stats['probes']['read_without_cutoff_then_' + str(th)] = 1
+        elif op == 'names_mutate':
+            lst = model.EquationSolver.TimeSeries.GetSeriesList()
+            if o['how'] == 'sort':
+                lst.sort()
+            elif o['how'] == 'reverse':
+                lst.reverse()
+            elif o['how'] == 'clear':
+                del lst[:]
+            else:
+                lst.append('bogus')
+            stats['probes']['returned_name_list_mutated'] = 1
         elif op == 'csv':
             stats['renders'] += 1
             txt = model.EquationSolver.GenerateCSVtext(o['fmt'])
